@@ -589,6 +589,7 @@ class Run:
             "dirty": dirty,
             "abort_first": sum(1 for ts in states for r in ts.records if r.get("op") == "parse" and r.get("kind") == "single"),
             "abort_cap": sum(1 for ts in states for r in ts.records if r.get("op") == "parse" and r.get("kind") == "composite" and len(r.get("snap") or ()) > 10),
+            "foreign": sum(1 for ts in states for r in ts.records if r.get("kind") == "foreign"),
             "fs": dict(fs_stats(env.fs)),
             "gate": seams.GATE,
         }
